@@ -20,6 +20,7 @@ CONSTANTS
   Zero = 0
   EmitEdges = {emit}
   Mutant = "{mutant}"
+  CarryAll = {carry}
   Annot = {{1, 2}}
   Times = {times}
   Labels = {labels}
@@ -55,8 +56,8 @@ CONCRETE = [
 ]
 
 
-UNIV_A = {"times": "{0, 1, 2}", "labels": "{0, 1, 2}", "ntimes": 3, "many": "TRUE"}      # three labels incl. none
-UNIV_B = {"times": "{0, 1, 2, 3}", "labels": "{0, 1}", "ntimes": 4, "many": "TRUE"}       # nested segments possible
+UNIV_A = {"times": "{0, 1, 2}", "labels": "{0, 1, 2}", "ntimes": 3, "many": "TRUE", "carry": "FALSE"}      # three labels incl. none
+UNIV_B = {"times": "{0, 1, 2, 3}", "labels": "{0, 1}", "ntimes": 4, "many": "TRUE", "carry": "FALSE"}       # nested segments possible
 
 
 def l1(rep, depth, univ, maxunits=3):
@@ -222,6 +223,63 @@ def _concrete_args(op, args, conc):
     return out
 
 
+def l2_sim(rep, pa, num, depth, univ, conc=None):
+    """Long behaviours: TLC -simulate walks the container model at random (categories carried as the library does);
+    every behaviour is stepped through real objects, all live objects compared after every call."""
+    conc = conc or CONCRETE[0]
+    cfg = MC_CONST.format(emit="TRUE", mutant="none", depth=depth + 1, maxunits=4, **dict(univ, carry="TRUE"))
+    nobj = 2
+    times = {conc["time"](t): t for t in range(0, univ["ntimes"])}
+    inv = {"ann": {v: k for k, v in conc["ann"].items()}, "lab": {v: k for k, v in conc["lab"].items()}, "time": times}
+    init = _key([{"absent": True}] * nobj)
+    st = {"objs": {}, "path": [], "behaviours": 0, "steps": 0, "broken": False, "src": None, "group": []}
+
+    def take(e):
+        """Execute the transition the random walk really took."""
+        op = e["op"]
+        args = tuple(tuple(sorted(map(tuple, a))) if isinstance(a, list) else a for a in e["args"])
+        ev = {"op": op, "args": _concrete_args(op, args, conc)}
+        if op in ("add_timeline", "add_annotation"):
+            ev["items"] = [[conc["time"](i[0]), conc["time"](i[1]), conc["lab"].get(i[2])] for i in args[2]]
+        out = histories.apply_event(pa, st["objs"], ev)
+        heap, problems = abstract_heap(st["objs"], nobj, inv)
+        st["path"].append([op, [list(a) if isinstance(a, tuple) else a for a in args]])
+        st["steps"] += 1
+        rep.case(key=("sim", st["behaviours"], len(st["path"])), nontrivial=op not in ("new", "drop"))
+        if problems or heap != [_canon(c) for c in e["dst"]] or out != e["out"]:
+            rep.violation(f"replay.sim.{op}", {"layer": "L2 spec->code (simulated behaviour)", "path": list(st["path"]), "spec_dst": e["dst"],
+                                               "spec_out": e["out"], "code_gives": [heap, out], "problems": problems})
+            st["broken"] = True
+
+    def on_edge(e):
+        # in simulation mode TLC prints EVERY successor of the state it is in, then moves to one of them: the walk is
+        # reconstructed from consecutive groups (the next group's source is the destination that was chosen)
+        if "src" not in e:
+            return
+        src = _key([_canon(c) for c in e["src"]])
+        if src != st["src"]:
+            chosen = [g for g in st["group"] if _key([_canon(c) for c in g["dst"]]) == src]
+            if chosen and not st["broken"]:
+                take(chosen[0])
+            elif src == init or not chosen:
+                st["objs"], st["path"], st["broken"] = {}, [], src != init
+                if src == init:
+                    st["behaviours"] += 1
+            st["src"], st["group"] = src, []
+        st["group"].append(e)
+    res = tlc.run("MC_Continuum", cfg, label=f"simulate num={num} depth={depth}", workers=1, timeout=1800, coverage=False,
+                  simulate=f"num={num}", depth=depth, on_print=on_edge)
+    if res.errors:
+        raise MachineryError(f"TLC simulation failed: {res.errors}\n{res.out[-1500:]}")
+    rep.add_tlc(res)
+    steps, behaviours = st["steps"], st["behaviours"]
+    if steps < num:
+        raise MachineryError(f"simulated behaviours could not be reconstructed ({steps} steps for {num} behaviours)")
+    rep.traces += steps
+    rep.extra["l2_simulated_behaviours"] = behaviours
+    rep.extra["l2_simulated_steps"] = steps
+
+
 # ----------------------------------------------------------------------------- L3
 def l3(rep, pa, n_traces, length, batch=300, ops_weights=None, key_prefix="trace"):
     rng = random.Random(seed() * 7919 + 13)
@@ -263,6 +321,7 @@ def run(tier, rep):
         l1(rep, 4, UNIV_B)
         l2(rep, pa, 4, dict(UNIV_A, many="FALSE"), concretes=CONCRETE[1:])
         l2(rep, pa, 3, UNIV_B, concretes=CONCRETE[:1])
+        l2_sim(rep, pa, 150, 40, UNIV_B)
         l3(rep, pa, n_traces=150, length=40)
     else:
         l1(rep, 6, UNIV_A)
@@ -270,6 +329,8 @@ def run(tier, rep):
         l2(rep, pa, 5, dict(UNIV_A, many="FALSE"), concretes=CONCRETE[:1])    # depth 5 without whole-object adds (size)
         l2(rep, pa, 4, UNIV_A, concretes=CONCRETE[1:])
         l2(rep, pa, 4, UNIV_B)
+        l2_sim(rep, pa, 2000, 60, UNIV_B)
+        l2_sim(rep, pa, 1000, 60, UNIV_A, conc=CONCRETE[1])
         l3(rep, pa, n_traces=3000, length=60)
     rep.exhaustive = False
 
